@@ -75,8 +75,25 @@ def _loop_spec(rng: random.Random, i: int) -> dict:
     return sp
 
 
+def _forward_spec(rng: random.Random, i: int) -> dict:
+    """r -> s -> m -> t -> u where the LAST task of s jumps forward to t (m is bypassed) and hands over outputs:
+    t and u must see everything s produced - also what only the routing task produced - through the ancestor merge."""
+    work = {"kind": "ok", "out": ["s_work", rng.choice(SCALARS)], "lout": [rng.choice(LISTS)]}
+    route = {"kind": "jump", "to": "t", "times": 1, "by_iter": True, "out": ["s_route", rng.choice(SCALARS)], "lout": [rng.choice(LISTS)]}
+    stages = [
+        specs.st("r", [], [dict(specs.OK, out=["r_o", rng.choice(SCALARS)], lout=[rng.choice(LISTS)])]),
+        specs.st("s", ["r"], [work, route] if rng.random() < 0.7 else [route]),
+        specs.st("m", ["s"], [dict(specs.OK, out=["m_o", rng.choice(SCALARS)])]),
+        specs.st("t", ["m"], [dict(specs.OK, out=["t_o"])]),
+        specs.st("u", ["t"], [dict(specs.OK, out=["u_o"])]),
+    ]
+    return {"name": f"c16forward_{i}", "confluent": True, "stages": stages}
+
+
 def _spec_for(i: int, seed: int) -> dict:
     rng = random.Random(seed * 7 + i * 1013)
+    if i % 10 == 9:
+        return _forward_spec(rng, i)
     return _loop_spec(rng, i) if i % 3 == 2 else _rand_spec(rng, i)
 
 
